@@ -643,6 +643,25 @@ theorem pageSearchC_exact [LinearOrder α] (masses minv : Array α) (frags : Lis
     pageSearchC masses minv frags B q = scan masses frags q :=
   pageSearch_exact binSearch binSearch binSearch_ok binSearch_ok masses minv frags B inv q
 
+/-- **C03.pageSearchA_exact** — the Array-backed executable search (`pageSearchA`, what a caller holding the
+fragments as an array runs) is exact as well: it equals `pageSearchC` (`pageSearchA_eq`, core-only proof in
+the model file), hence the linear scan. The `@[csimp]` forms `buildIndexFast`, `pageSearchFast`, `bssFast`
+are proved equal to the reference definitions in the model file (`buildIndex_eq_fast`,
+`pageSearchC_eq_fast`, `bssFast_eq`), so every theorem here is about what the driver executes. -/
+theorem pageSearchA_exact [LinearOrder α] (masses minv : Array α) (frags : List (Frag α)) (B : Nat)
+    (inv : DbInv masses minv frags B) (q : Q α) :
+    pageSearchA masses minv frags.toArray B q = scan masses frags q := by
+  rw [pageSearchA_eq, pageSearchC_exact masses minv frags B inv q]
+
+/-- **C03.fast_forms_agree** — the three executable replacements compute the reference definitions, for every
+input and every (even lawless) order instance. -/
+theorem fast_forms_agree [LinearOrder α] (masses minv : Array α) (frags ions : List (Frag α)) (B : Nat) (q : Q α)
+    (l : Array α) (lo hi : α) :
+    buildIndexFast B ions = buildIndex B ions ∧
+    pageSearchFast masses minv frags B q = pageSearchC masses minv frags B q ∧
+    bssFast l lo hi = binarySearchSlice l lo hi :=
+  ⟨(buildIndex_eq_fast B ions).symm, (pageSearchC_eq_fast masses minv frags B q).symm, (bssFast_eq l lo hi).symm⟩
+
 /-- **C03.bucket_size_irrelevant** — two indexes over the same peptides whose fragment lists are
 permutations of each other (e.g. built with different bucket sizes, with whatever tie order the unstable
 sorts chose) answer every query with the same multiset of fragments. -/
@@ -1018,6 +1037,8 @@ example : DbInv exMasses exMinv exFrags 4 := dbInvOk_sound _ _ _ _ (by decide)
 /-- … and the result is a proper, non-empty part of the stored fragments, drawn from two buckets -/
 example : pairs (pageSearchC exMasses exMinv exFrags 4 exQ) = [(2, 30), (0, 30), (1, 30)] := by decide
 example : pairs (scan exMasses exFrags exQ) = [(2, 30), (0, 30), (1, 30)] := by decide
+example : pairs (pageSearchA exMasses exMinv exFrags.toArray 4 exQ) = [(2, 30), (0, 30), (1, 30)] := by decide
+example : pairs (pageSearchFast exMasses exMinv exFrags 4 exQ) = [(2, 30), (0, 30), (1, 30)] := by decide
 /-- the edge filter matters: peptide 3 (mass 110) is rejected at `pre_idx_hi`-side, peptide 2 (mass 105) kept -/
 example : edgeFilter exMasses exQ 0 3 ⟨3, 30⟩ = false ∧ edgeFilter exMasses exQ 0 3 ⟨2, 30⟩ = true := by decide
 
